@@ -3,6 +3,7 @@
   datasets or parameters, also when the evaluation raises.  Theorems about Model/Predict.lean.
 -/
 import Model.Predict
+import Model.Memo
 import Props.C11
 
 namespace Gep.Pred.C12
@@ -128,3 +129,75 @@ theorem runCalls_pure (env : Env V W R (Point A)) (s : St V W A) (calls : List (
     exact ⟨by rw [hv, h1], h2, h3, h4⟩
 
 end Gep.Pred.C12
+
+/-! ### memo tables in general (Model/Memo.lean): transparent for every history iff the key determines the value.
+    `run_pure` is the reason the package's Q²-keyed tables are harmless for a theory whose configuration is fixed;
+    `incomplete_key_refuted` is why the harnesses evaluate chains of calls in which ONE argument changes at a time:
+    any incomplete key is exposed by a two-call history. -/
+namespace Gep.Memo
+variable {A K B : Type} [DecidableEq K]
+
+theorem lookup_mem {tbl : List (K × B)} {k : K} {b : B} (h : lookup tbl k = some b) : (k, b) ∈ tbl := by
+  induction tbl with
+  | nil => simp [lookup] at h
+  | cons e r ih =>
+    obtain ⟨k', b'⟩ := e
+    simp only [lookup] at h
+    split at h
+    · rename_i hk; cases h; subst hk; exact List.mem_cons_self
+    · exact List.mem_cons_of_mem _ (ih h)
+
+/-- one call through a correct table returns `f a` and leaves a correct table — provided the key determines
+    the value -/
+theorem call_spec (key : A → K) (f : A → B) (hkey : ∀ a b, key a = key b → f a = f b)
+    (tbl : List (K × B)) (a : A) (h : TableOK key f tbl) :
+    (call key f tbl a).1 = f a ∧ TableOK key f (call key f tbl a).2 := by
+  unfold call
+  cases hl : lookup tbl (key a) with
+  | some b => exact ⟨(h _ _ (lookup_mem hl) a rfl).symm, h⟩
+  | none =>
+    refine ⟨rfl, ?_⟩
+    intro k b hm a' ha'
+    rcases List.mem_append.1 hm with hm | hm
+    · exact h k b hm a' ha'
+    · simp only [List.mem_singleton, Prod.mk.injEq] at hm
+      obtain ⟨rfl, rfl⟩ := hm
+      exact hkey a' a ha'
+
+/-- **memo transparency for every history**: if the key determines the value, any sequence of calls on one object
+    returns exactly what the function returns, whatever was asked before -/
+theorem run_pure (key : A → K) (f : A → B) (hkey : ∀ a b, key a = key b → f a = f b)
+    (tbl : List (K × B)) (h : TableOK key f tbl) (hist : List A) :
+    (run key f tbl hist).1 = hist.map f ∧ TableOK key f (run key f tbl hist).2 := by
+  induction hist generalizing tbl with
+  | nil => exact ⟨rfl, h⟩
+  | cons a rest ih =>
+    obtain ⟨h1, h2⟩ := call_spec key f hkey tbl a h
+    obtain ⟨i1, i2⟩ := ih (call key f tbl a).2 h2
+    simp only [run, List.map_cons]
+    exact ⟨by rw [h1, i1], i2⟩
+
+/-- **an incomplete key is exposed by a history of length two**: two arguments that agree on the key and differ in
+    the value, asked one after the other on a fresh object, return the first value twice -/
+theorem incomplete_key_refuted (key : A → K) (f : A → B) (a b : A) (hk : key a = key b) (hf : f a ≠ f b) :
+    (run key f [] [a, b]).1 = [f a, f a] ∧ (run key f [] [a, b]).1 ≠ [a, b].map f := by
+  have h1 : (run key f [] [a, b]).1 = [f a, f a] := by
+    simp [run, call, lookup, hk]
+  refine ⟨h1, ?_⟩
+  rw [h1]
+  simp only [List.map_cons, List.map_nil, ne_eq, List.cons.injEq, and_true, true_and]
+  exact hf
+
+/-- hence: the memo is transparent for every history **iff** the key determines the value -/
+theorem transparent_iff (key : A → K) (f : A → B) :
+    (∀ hist : List A, (run key f [] hist).1 = hist.map f) ↔ (∀ a b, key a = key b → f a = f b) := by
+  constructor
+  · intro h a b hk
+    exact Classical.byContradiction fun hf => (incomplete_key_refuted key f a b hk hf).2 (h [a, b])
+  · intro hkey hist
+    exact (run_pure key f hkey [] (by intro k b hm; cases hm) hist).1
+
+/-- non-vacuity: a table keyed by Q² alone for a function of (Q², skewness) — the second call is wrong -/
+example : (run (fun p : Nat × Nat => p.1) (fun p => p.1 + p.2) [] [(4, 0), (4, 1)]).1 = [4, 4] := by decide
+
+end Gep.Memo
